@@ -567,9 +567,10 @@ func VerifC15Arith() {
 	// known findings of the unchanged tree
 	intLike := func(k int) bool { return k == vkInt || k == vkUint || k == vkBool }
 	verifrt.Known("C15-int-char-relational-widening", isRel(tok) && (intLike(ka) && kb == vkChar || ka == vkChar && intLike(kb)))
-	verifrt.Known("C15-bool-lhs-float-char-typeerror", ka == vkBool && (kb == vkFloat || kb == vkChar))
-	verifrt.Known("C15-rem-zero-panic", tok == token.Rem && wantErr == refZeroDiv)
-	verifrt.Known("C15-negative-shift-panic", (tok == token.Shl || tok == token.Shr) && wantErr == refSomeError)
+	boolLHS := ka == vkBool && (kb == vkFloat || kb == vkChar)
+	verifrt.Known("C15-bool-lhs-float-char-typeerror", boolLHS)
+	verifrt.Known("C15-rem-zero-panic", !boolLHS && tok == token.Rem && wantErr == refZeroDiv)
+	verifrt.Known("C15-negative-shift-panic", !boolLHS && (tok == token.Shl || tok == token.Shr) && wantErr == refSomeError)
 	verifrt.NoPanic("binaryop-no-panic", func() {
 		if verifrt.Param("via") == 1 {
 			got, err = verifRunBinary(OpBinaryOp, tok, a, b)
